@@ -3,8 +3,6 @@ import DictIO.Props.C08nat
 import DictIO.Props.C06fold
 import DictIO.Props.C01dump
 
-set_option profiler true
-set_option profiler.threshold 1000
 namespace DictIO
 namespace C08api
 open DictIO
@@ -839,43 +837,6 @@ theorem probe_commented_canon (ev : Str → EvalResult) {w₁ w₂ : World} {p :
     show ApiOut.data (C08.canonSD _) = ApiOut.data (C08.canonSD _)
     rw [e1, e2, e3]
 
-/-! ## property theorems -/
-
-/-- **C08 on histories, writes included.**  Take any world whose counter holds a value that can occur, any history of
-    API calls — reads, loads, resets, and writes / dumps / parses whose target is not the probed file —, and a probe
-    `read p o` (any options) of a file that is an admissible layout of a well-formed comment-free document.  The probe
-    after the history returns what it returns in the fresh world (same files, counter reset) — and that is
-    `plainProbe`, a function of the document and the options alone.  The outputs of the history itself are untouched. -/
-theorem C08_history_writes (ev : Str → EvalResult) (ops : List ApiOp) (w : World) (p : Comps) (o : ReadOpts)
-    {es : SrcEntries} {gaps : List Str} {tail : Str} (hdoc : PlainDoc es gaps tail)
-    (hfile : w.fs.get (resolveSpelled p) = some (.native (spreadS (srcToksEs es) gaps tail)))
-    (hc : C13.ValidCounter Gen.counterLimit w.c)
-    (hops : ∀ op ∈ ops, op.target ≠ some (resolveSpelled p)) :
-    (apiRun ev w (ops ++ [.read p o])).2 =
-        (apiRun ev w ops).2 ++ (apiRun ev { fs := w.fs, c := none } [.read p o]).2 ∧
-      (apiRun ev { fs := w.fs, c := none } [.read p o]).2 = [plainProbe ev p o es] := by
-  have h1 : (apiStep ev (apiRun ev w ops).1 (.read p o)).2 = plainProbe ev p o es :=
-    probe_plain ev o hdoc (by rw [C13api.run_frame ev _ ops w hops]; exact hfile) (run_valid_counter ev ops w hc)
-  have h2 : (apiStep ev { fs := w.fs, c := none } (.read p o)).2 = plainProbe ev p o es :=
-    probe_plain ev (w := { fs := w.fs, c := none }) o hdoc hfile V_none
-  have h3 : (apiRun ev { fs := w.fs, c := none } [.read p o]).2 = [plainProbe ev p o es] := by
-    rw [C13api.apiRun_cons, h2]; rfl
-  exact ⟨by rw [apiRun_snoc, h1, h3], h3⟩
-
-theorem target_of_readOp {op : ApiOp} (h : C13api.IsReadOp op) : op.target = none := by
-  cases op <;> first | rfl | exact h.elim
-
-/-- **C08 on histories of reads, loads and resets** (no side condition on the history at all) -/
-theorem C08_history_reads (ev : Str → EvalResult) (ops : List ApiOp) (w : World) (p : Comps) (o : ReadOpts)
-    {es : SrcEntries} {gaps : List Str} {tail : Str} (hdoc : PlainDoc es gaps tail)
-    (hfile : w.fs.get (resolveSpelled p) = some (.native (spreadS (srcToksEs es) gaps tail)))
-    (hc : C13.ValidCounter Gen.counterLimit w.c)
-    (hops : ∀ op ∈ ops, C13api.IsReadOp op) :
-    (apiRun ev w (ops ++ [.read p o])).2 =
-        (apiRun ev w ops).2 ++ (apiRun ev { fs := w.fs, c := none } [.read p o]).2 ∧
-      (apiRun ev { fs := w.fs, c := none } [.read p o]).2 = [plainProbe ev p o es] :=
-  C08_history_writes ev ops w p o hdoc hfile hc (fun op hop => by rw [target_of_readOp (hops op hop)]; exact nofun)
-
 /-! ### the bytes a write produces -/
 
 /-- **the text `DictWriter.write(source, target, mode='w', order)` writes**, in closed form: the formatter chosen by the
@@ -917,6 +878,70 @@ theorem write_step (ev : Str → EvalResult) (w : World) (a : Arg) (target : Com
   | none => rw [hb] at h; simp only [apiStep, C13api.writeTo_error h]
   | some t => rw [hb] at h; simp only [apiStep, C13api.writeTo_ok h]
 
+/-- for a builtin dict the formatter never gives up: the bytes are `fmtPlain` of the retyped (ordered) dict -/
+theorem writeBytes_plain (target : Comps) (order : Bool) (d : Entries) {fl : Flavor} (hf : flavorOfPath target = some fl) :
+    writeBytes target order (.plain d) = some (fmtPlain fl (if order then orderD (normEs d) else normEs d)) := by
+  unfold writeBytes
+  rw [hf]
+  cases order <;> rfl
+
+
+/-- one overwriting `parse` of a comment-free source in any world that holds it: the derived target holds `writeBytes`
+    of the dict read, which is returned -/
+theorem parse_step_plain (ev : Str → EvalResult) {w : World} {src : Comps} (o : ReadOpts) (mode : Str) (output : Option Str)
+    {es : SrcEntries} {gaps : List Str} {tail : Str} (hdoc : PlainDoc es gaps tail)
+    (hfile : w.fs.get (resolveSpelled src) = some (.native (spreadS (srcToksEs es) gaps tail))) (hc : V w.c)
+    (hxj : (isXmlPath src || isJsonPath src) = false) (hm : mode ≠ ['a'])
+    {sd : SD} (hr : postRead ev o { data := denSrcEs es [] } = .ok (some sd))
+    {t : Str} (ht : writeBytes (parseTarget src o.scope output) o.order (.sd sd) = some t) :
+    ∃ c', apiStep ev w (.parse src o mode output) =
+      ({ fs := w.fs.set (resolveSpelled (parseTarget src o.scope output)) (.native t), c := c' }, .data sd) := by
+  obtain ⟨c', hp⟩ := parseFile_plain hdoc hfile o.comments hc
+  rw [hxj] at hp
+  have hread : readFile ev w.fs o w.c src = .ok (.ok sd c') := by
+    rw [readFile_noincl ev w.fs o w.c c' src _ hp rfl, hr]; rfl
+  have hw := writeText_overwrite ev w.fs (parseTarget src o.scope output) mode o.order (.sd sd) c' (.inl hm)
+  rw [ht] at hw
+  have hto := C13api.writeTo_ok (ev := ev) (w := { w with c := c' }) hw
+  exact ⟨c', by simp only [apiStep, hfile, hread, hto]⟩
+
+/-! ## property theorems -/
+
+/-- **C08 on histories, writes included.**  Take any world whose counter holds a value that can occur, any history of
+    API calls — reads, loads, resets, and writes / dumps / parses whose target is not the probed file —, and a probe
+    `read p o` (any options) of a file that is an admissible layout of a well-formed comment-free document.  The probe
+    after the history returns what it returns in the fresh world (same files, counter reset) — and that is
+    `plainProbe`, a function of the document and the options alone.  The outputs of the history itself are untouched. -/
+theorem C08_history_writes (ev : Str → EvalResult) (ops : List ApiOp) (w : World) (p : Comps) (o : ReadOpts)
+    {es : SrcEntries} {gaps : List Str} {tail : Str} (hdoc : PlainDoc es gaps tail)
+    (hfile : w.fs.get (resolveSpelled p) = some (.native (spreadS (srcToksEs es) gaps tail)))
+    (hc : C13.ValidCounter Gen.counterLimit w.c)
+    (hops : ∀ op ∈ ops, op.target ≠ some (resolveSpelled p)) :
+    (apiRun ev w (ops ++ [.read p o])).2 =
+        (apiRun ev w ops).2 ++ (apiRun ev { fs := w.fs, c := none } [.read p o]).2 ∧
+      (apiRun ev { fs := w.fs, c := none } [.read p o]).2 = [plainProbe ev p o es] := by
+  have h1 : (apiStep ev (apiRun ev w ops).1 (.read p o)).2 = plainProbe ev p o es :=
+    probe_plain ev o hdoc (by rw [C13api.run_frame ev _ ops w hops]; exact hfile) (run_valid_counter ev ops w hc)
+  have h2 : (apiStep ev { fs := w.fs, c := none } (.read p o)).2 = plainProbe ev p o es :=
+    probe_plain ev (w := { fs := w.fs, c := none }) o hdoc hfile V_none
+  have h3 : (apiRun ev { fs := w.fs, c := none } [.read p o]).2 = [plainProbe ev p o es] := by
+    rw [C13api.apiRun_cons, h2]; rfl
+  exact ⟨by rw [apiRun_snoc, h1, h3], h3⟩
+
+theorem target_of_readOp {op : ApiOp} (h : C13api.IsReadOp op) : op.target = none := by
+  cases op <;> first | rfl | exact h.elim
+
+/-- **C08 on histories of reads, loads and resets** (no side condition on the history at all) -/
+theorem C08_history_reads (ev : Str → EvalResult) (ops : List ApiOp) (w : World) (p : Comps) (o : ReadOpts)
+    {es : SrcEntries} {gaps : List Str} {tail : Str} (hdoc : PlainDoc es gaps tail)
+    (hfile : w.fs.get (resolveSpelled p) = some (.native (spreadS (srcToksEs es) gaps tail)))
+    (hc : C13.ValidCounter Gen.counterLimit w.c)
+    (hops : ∀ op ∈ ops, C13api.IsReadOp op) :
+    (apiRun ev w (ops ++ [.read p o])).2 =
+        (apiRun ev w ops).2 ++ (apiRun ev { fs := w.fs, c := none } [.read p o]).2 ∧
+      (apiRun ev { fs := w.fs, c := none } [.read p o]).2 = [plainProbe ev p o es] :=
+  C08_history_writes ev ops w p o hdoc hfile hc (fun op hop => by rw [target_of_readOp (hops op hop)]; exact nofun)
+
 /-- **C08 for writes, on histories.**  After *any* history of API calls (no side condition: the history may read,
     rewrite or create the target itself), from any world and any counter value whatsoever, an overwriting `write`
     (mode other than `'a'`) of any source — builtin dict or SDict — leaves in its target exactly `writeBytes`, a
@@ -929,19 +954,32 @@ theorem C08_write_bytes_history (ev : Str → EvalResult) (ops : List ApiOp) (w 
   simp only [apiRun_snoc, write_step ev _ a target mode order (.inl hm), ht]
   exact ⟨C13api.get_set_self _ _ _, trivial, trivial⟩
 
-/-- for a builtin dict the formatter never gives up: the bytes are `fmtPlain` of the retyped (ordered) dict -/
-theorem writeBytes_plain (target : Comps) (order : Bool) (d : Entries) {fl : Flavor} (hf : flavorOfPath target = some fl) :
-    writeBytes target order (.plain d) = some (fmtPlain fl (if order then orderD (normEs d) else normEs d)) := by
-  unfold writeBytes
-  rw [hf]
-  cases order <;> rfl
-
 /-- a write the model does not follow (`writeBytes = none`) changes nothing, after any history -/
 theorem C08_write_unsupported_history (ev : Str → EvalResult) (ops : List ApiOp) (w : World) (a : Arg) (target : Comps)
     (mode : Str) (order : Bool) (hm : mode ≠ ['a']) (ht : writeBytes target order a = none) :
     apiRun ev w (ops ++ [.write a target mode order]) =
       ((apiRun ev w ops).1, (apiRun ev w ops).2 ++ [.gaveUp .unsupported]) := by
   simp only [apiRun_snoc, write_step ev _ a target mode order (.inl hm), ht]
+
+/-- **C08 for `parse`, on histories.**  After any history that does not target the source, from any world with a
+    counter value that can occur, `DictParser.parse(src, …)` in overwrite mode on a comment-free source writes into the
+    derived file `parsed.<name>` bytes that are a function of the source document and the options alone (`writeBytes` of
+    `postRead` of the document's meaning), and returns that dict. -/
+theorem C08_parse_bytes_history (ev : Str → EvalResult) (ops : List ApiOp) (w : World) (src : Comps) (o : ReadOpts)
+    (mode : Str) (output : Option Str) {es : SrcEntries} {gaps : List Str} {tail : Str} (hdoc : PlainDoc es gaps tail)
+    (hfile : w.fs.get (resolveSpelled src) = some (.native (spreadS (srcToksEs es) gaps tail)))
+    (hc : C13.ValidCounter Gen.counterLimit w.c)
+    (hops : ∀ op ∈ ops, op.target ≠ some (resolveSpelled src))
+    (hxj : (isXmlPath src || isJsonPath src) = false) (hm : mode ≠ ['a'])
+    {sd : SD} (hr : postRead ev o { data := denSrcEs es [] } = .ok (some sd))
+    {t : Str} (ht : writeBytes (parseTarget src o.scope output) o.order (.sd sd) = some t) :
+    let r := apiRun ev w (ops ++ [.parse src o mode output])
+    r.1.fs.get (resolveSpelled (parseTarget src o.scope output)) = some (.native t) ∧
+      r.2 = (apiRun ev w ops).2 ++ [.data sd] := by
+  obtain ⟨c', h⟩ := parse_step_plain ev (w := (apiRun ev w ops).1) o mode output hdoc
+    (by rw [C13api.run_frame ev _ ops w hops]; exact hfile) (run_valid_counter ev ops w hc) hxj hm hr ht
+  simp only [apiRun_snoc, h]
+  exact ⟨C13api.get_set_self _ _ _, trivial⟩
 
 /-- **C08 on histories, commented documents.**  Any world with a counter value that can occur, any history of API calls
     none of which targets the probed file (reads, loads and resets never do), a probe `read p o` with comments kept,
